@@ -154,7 +154,7 @@ PROPS = {
     },
     "C16": {
         "families": [{"family": "life"}],
-        "level_text": "Partial. Life.v models when feeds end: handles of one bucket, collections, the feed registry shared by all handles, live and dump feeds started through any handle, terminators, DropDataStore, Close (the last close of an on-disk bucket shuts the store down), CloseAndDelete, writes. Proved on the model for every state and step: an ended feed stays ended and receives nothing more (C16_ended_is_final); closing another feed's terminator, dropping another collection, or closing a handle that is not the last one of an on-disk bucket never ends a running feed (C16_independent). Tie to the code: the life family runs generated histories (1-3 handles, up to 3 collections, in-memory and on-disk) and compares, after every step, every feed's done channel and event count exactly with the model; the executable checker (ended is final and silent; a feed ends only for a cause that concerns it and a cause does end it; every running live feed receives each write of its collection) is evaluated on implementation and model traces. That the feed goroutine exits is inferred from its done channel; exactly-once closing of done is assumed from the single `defer close` in run().",
+        "level_text": "Partial. Life.v models when feeds end: handles of one bucket, collections, the feed registry shared by all handles, live and dump feeds started through any handle, terminators, DropDataStore, Close (the last close of an on-disk bucket shuts the store down), CloseAndDelete, writes. Consumers may be slow: a feed's callback can be blocked (LBlock/LRelease) so that events queue up behind it while the feed is ended. Proved on the model for every state and step: an ended feed stays ended and receives nothing more (C16_ended_is_final, with the invariant C16_wf_reachable); what was queued behind a blocked callback when the feed was ended is never delivered and the done channel closes when the callback returns (C16_queued_never_delivered); closing another feed's terminator, dropping another collection, or closing a handle that is not the last one of an on-disk bucket never ends a running feed nor marks it for ending (C16_independent). Tie to the code: the life family runs generated histories (1-3 handles, up to 3 collections, in-memory and on-disk) and compares, after every step, every feed's done channel and event count exactly with the model; the executable checker (ended is final and silent; a feed ends only for a cause that concerns it and a cause does end it; every running live feed receives each write of its collection) is evaluated on implementation and model traces. That the feed goroutine exits is inferred from its done channel; exactly-once closing of done is assumed from the single `defer close` in run().",
         "level_note": "Observation after each step waits for the feed goroutines to settle (up to 400 ms): a termination slower than that would be reported as missing. Concurrent writers during termination are covered by the sched / ckpt families (C15). Trusted: Coq kernel + vm_compute, Go harness.",
         "assumptions": ["each lifecycle call is one atomic step (bucket.mutex / cluster.lock)", "a closed done channel means the feed goroutine has left its loop"],
     },
